@@ -70,6 +70,7 @@ class Associate(Block):
             # now pass the keywords through the dimension_parser and set the keywords
             # in the associate object. Hover should now pick the local keywords
             # over the linked_object keywords
+            assoc.var.link_obj = None
             assoc.link_name = re.sub(r"\(.*\)", "", assoc.link_name)
             var_stack = get_var_stack(assoc.link_name)
             is_member = len(var_stack) > 1
